@@ -165,9 +165,12 @@ StepClauses(pre, ev, o, out, f, g2) ==
   \* (two live ranges that overlap, or a live range outside the file, cannot both / at all hold
   \* the bytes that were stored: the frame condition is broken together with C03)
   \cup (IF sound THEN C04(f, g2) ELSE If(~NoOverlap(f) \/ ~RangesOK(f) \/ d.flen # FileLen(f), "C04:content"))
-  \cup (IF sound THEN C09(f, g2) ELSE {})
-  \cup (IF sound /\ pre.s.g.compact /\ ok /\ o.op = "add" /\ d.flen # pre.flen + o.b.sz THEN {"C09:grow_exact"} ELSE {})
-  \cup (IF sound /\ pre.s.g.compact /\ ok /\ o.op = "remove" /\ HasType(pre.s.f, o.t)
+  \* (the length clauses only need the table and the file length: they are judged even when
+  \* the file is structurally broken)
+  \cup (IF sound THEN C09(f, g2)
+        ELSE If(g2.compact /\ d.flen # TableEnd(f) + LiveSum(f, f.n), "C09:file_length"))
+  \cup (IF pre.s.g.compact /\ ok /\ o.op = "add" /\ d.flen # pre.flen + o.b.sz THEN {"C09:grow_exact"} ELSE {})
+  \cup (IF pre.s.g.compact /\ ok /\ o.op = "remove" /\ HasType(pre.s.f, o.t)
            /\ d.flen # pre.flen - pre.s.f.table[FirstOf(pre.s.f, o.t)].size THEN {"C09:shrink_exact"} ELSE {})
   \cup (IF sound THEN C10(f, ob) ELSE {})
   \cup (IF sound THEN C11view(f, ob.view) ELSE {})
